@@ -120,6 +120,8 @@ RCPTS = [
     # source routes are accepted and ignored: the address behind the colon is the recipient
     (b'RCPT TO:<@Relay1.Example.COM,@relay2.example.com:Carol@Example.ORG>', 'route'), (b'RCPT TO:<@r.example:ERIN@example.org>', 'route'),
     # accepted only with the catch-all of world['catchall']: the envelope must still carry the lower-cased address
+    # literals that only start like the local address (192.0.2.1): not the local host
+    (b'RCPT TO:<alice@[192.0.2.10]>', 'literal-prefix'), (b'RCPT TO:<alice@[192.0.2.123]>', 'literal-prefix'), (b'RCPT TO:<carol@[192.0.2.2]>', 'literal-other'),
     (b'RCPT TO:<Info@[192.0.2.1]>', 'literal-mixed-case'), (b'RCPT TO:<Some.Body@Example.Org>', 'catch-all'), (b'RCPT TO:<ALICE@[192.0.2.1]>', 'literal-upper'),
 ]
 SENDERS = [b'MAIL FROM:<s@remote.example>', b'MAIL FROM:<S.T@Remote.Example>', b'MAIL FROM:<>', b'mail from:<s@remote.example>',
@@ -307,6 +309,13 @@ def run_specs(ctx, binary, specs, name):
             lines = data_lines(tx.payload) if tx else None
             if lines is None:
                 fails.append((case, repr(msg[:80]), 'fails malformed-payload-acknowledged'))
+                continue
+            # "a literal for the local IP rewritten to localiphost": only that literal.  queue_envelope() rewrites
+            # every `@[`, relying on RCPT TO having refused every other literal - so an accepted recipient with
+            # another literal reaches the queue under a different address than the client was told
+            bad_lit = [a for a in v['rcpts'] if b'@[' in a and a.split(b'@[', 1)[1] not in (b'192.0.2.1]', b'ipv6:::ffff:192.0.2.1]')]
+            if bad_lit:
+                fails.append((case, 'env=%r' % env[:120], 'fails envelope (recipient %r accepted with an address literal that is not the local IP; it is queued as a localiphost address)' % bad_lit[0]))
                 continue
             date, msgid = dataq.oracle_strings(w.snap, msg)
             world = spec.get('world', {})
